@@ -505,7 +505,7 @@ fn battery(ctx: &Ctx, c: &Corrupted, stats: &Stats, counting: bool, deep_faults:
 		}
 	}
 	// the third option: `debug` dumps every event's payload into a directory (one case in 32, small inputs)
-	if bytes.len() <= 4096 && rt::hash_bytes(bytes) % 32 == 5 {
+	if bytes.len() <= 4096 && rt::hash_bytes(bytes) % 32 == 5 && rt::debug_budget_take() {
 		let out = rt::with_debug_dir(|dir| {
 			let mut worst: Option<(bool, bool, String)> = None;
 			for (skip, hash) in [(false, false), (true, true)] {
